@@ -273,6 +273,37 @@ func genIter(g *gen, n int, tier string, w *bufio.Writer) {
 				fmt.Fprintln(w, "collect")
 				g.cursorOps(w, keys, 3+g.intn(6), true)
 			}
+			// more writes in the same transaction AFTER scans were taken from it (overwrites and deletes of keys it already
+			// wrote, and new keys), then scans again: a scan always shows the write set as it is now
+			if m > 0 {
+				for rr := 0; rr < 1+g.intn(2); rr++ {
+					m2 := 1 + g.intn(4)
+					parts2 := []string{"txmore", strconv.Itoa(m2)}
+					for i := 0; i < m2; i++ {
+						k := keys[g.intn(len(keys))]
+						if g.chance(1, 4) {
+							k = g.iterKey()
+							keys = append(keys, k)
+						}
+						if g.chance(1, 3) {
+							parts2 = append(parts2, "d", hx(k), "=")
+						} else {
+							v := g.iterVal()
+							if v == nil {
+								v = []byte{}
+							}
+							parts2 = append(parts2, "p", hx(k), hx(v))
+						}
+					}
+					fmt.Fprintln(w, strings.Join(parts2, " "))
+					if g.chance(1, 2) {
+						fmt.Fprintln(w, "build txiter")
+					} else {
+						fmt.Fprintln(w, join("build", "txrange", g.optTarget(keys), g.optTarget(keys)))
+					}
+					fmt.Fprintln(w, "collect")
+				}
+			}
 			for r := 0; r < 3; r++ {
 				fmt.Fprintln(w, g.scanLine(keys))
 			}
@@ -693,6 +724,28 @@ func (x *iterRun) step(ws []string) (out string) {
 			}
 		}
 		return "ok"
+	case "txmore":
+		if x.tx == nil { // no tx line (a shrunk script): as the model, the transaction starts empty
+			x.txm = transaction.NewManager(x, nil)
+			tx, err := x.txm.BeginTransaction(false)
+			if err != nil {
+				return "err"
+			}
+			x.tx = tx
+		}
+		for i := 2; i+2 < len(ws); i += 3 {
+			k, v := unhx(ws[i+1]), unhx(ws[i+2])
+			var err error
+			if ws[i] == "d" {
+				err = x.tx.Delete(k)
+			} else {
+				err = x.tx.Put(k, v)
+			}
+			if err != nil {
+				return "err " + errTok(err)
+			}
+		}
+		return "ok"
 	case "build":
 		var lo, hi []byte
 		if len(ws) == 4 {
@@ -798,7 +851,7 @@ func (x *iterRun) step(ws []string) (out string) {
 // in-memory cursor calls return within microseconds; building sources writes files
 func iterStepTimeout(op string) time.Duration {
 	switch op {
-	case "new", "src", "tx", "build":
+	case "new", "src", "tx", "txmore", "build":
 		return 60 * time.Second
 	}
 	return 5 * time.Second
